@@ -79,6 +79,7 @@ type AEvent struct {
 	Ret    []string `json:"ret"`
 	RetN   int64    `json:"retn"`
 	NLogs  int      `json:"nlogs"`
+	Logs   []ALog   `json:"logs"`
 	Err    string   `json:"err"`
 	PL     []int64  `json:"pl"`
 	Par    APar     `json:"par"`
@@ -87,6 +88,14 @@ type AEvent struct {
 	SchOK  bool     `json:"schok"` // sched events: whether the offered schedule is complete and non-zero
 	GasCls string   `json:"gascls"`
 	X      map[string]interface{} `json:"x"`
+}
+
+// ALog is a projected log entry: identifier, address (account name) and topics projected like arguments.
+type ALog struct {
+	ID     string `json:"id"`
+	Addr   string `json:"addr"`
+	Topics []AArg `json:"topics"`
+	Data   string `json:"data"`
 }
 
 // ALine is one ndjson line.
@@ -141,6 +150,9 @@ func (t *Tracer) Write(l *ALine, concrete interface{}) error {
 	}
 	if l.Ev.Ret == nil {
 		l.Ev.Ret = []string{}
+	}
+	if l.Ev.Logs == nil {
+		l.Ev.Logs = []ALog{}
 	}
 	if l.Ev.PL == nil {
 		l.Ev.PL = []int64{}
@@ -258,6 +270,21 @@ func (p *Proj) EventOf(kind string, shard int, c *Call, r *StepResult, mid int, 
 			ev.RetN = N(r.Out.ReturnData[0])
 		}
 		ev.NLogs = len(r.Out.Logs)
+		for _, l := range r.Out.Logs {
+			if l == nil {
+				ev.Logs = append(ev.Logs, ALog{ID: "<nil>", Topics: []AArg{}})
+				continue
+			}
+			al := ALog{ID: string(l.Identifier), Addr: p.W.NameOf(l.Address), Topics: p.Args("", l.Topics, false), Data: hx(l.Data)}
+			if al.ID == "ESDTNFTCreate" && len(al.Topics) >= 3 {
+				// the third topic is the marshalled entry that was stored: shown decoded
+				if e, ok := DecodeEntry(l.Topics[2]); ok {
+					ae := p.Entry(e)
+					al.Topics[2].HE, al.Topics[2].E, al.Topics[2].H = true, &ae, ""
+				}
+			}
+			ev.Logs = append(ev.Logs, al)
+		}
 	}
 	for _, m := range r.Emitted {
 		ev.Out = append(ev.Out, p.Msg(m))
